@@ -105,7 +105,7 @@ struct C14 : Scenario {
         if (r.raised.empty()) { o.set_infra("signal was not raised for " + name + " (H=" + std::to_string(x.H) + ")"); return; }
         // decode first raise: kind:label:idx:loop_heads:steps_done:phase:point_hits
         auto f = split(r.raised[0], ':');
-        if (f.size() < 7) { o.set_infra("bad raised record " + r.raised[0]); return; }
+        if (f.size() < 8) { o.set_infra("bad raised record " + r.raised[0]); return; }
         std::string label = f[1], phase = f[5];
         long loop_heads = atol(f[3].c_str()), hits_at = atol(f[6].c_str());
         o.probe("cls.sig." + f[0] + "." + label + "." + phase);
@@ -120,7 +120,8 @@ struct C14 : Scenario {
         unsigned got_j = (unsigned)r.sumi("steps_done");
         if (got_j != expect_j) bad("C14.steps", "executed " + std::to_string(got_j) + " steps, model (finish the step in progress, no more) says " + std::to_string(expect_j));
         // clause 2: reports Aborted
-        bool before_report = f[0] == "point" ? (set[0].idx <= x.B) : (hits_at <= x.B);
+        bool before_report = f[7] == "0";
+        (void)hits_at;
         std::string log = read_file(x.rc->workdir + "/I.h5.log");
         bool ab_out = log_has(r.out, "Aborted."), ab_log = log_has(log, "Aborted.");
         bool fin_out = log_has(r.out, "Finished.");
